@@ -77,7 +77,7 @@ def gen_request(rng, limit=51200, want_body=None, want_expect=None, long_lines=F
         elif k < 0.4:
             hs.append(header_line(rng, b'Transfer-Encoding', rng.choice([b'chunked', b'identity', b'gzip'])))
         elif k < 0.5:
-            hs.append(header_line(rng, b'Accept-Encoding', rng.choice([b'identity', b'gzip, deflate', b'gzip, identity;q=1', b'identity, *;q=0', b'br'])))
+            hs.append(header_line(rng, b'Accept-Encoding', rng.choice([b'identity', b'gzip, deflate', b'gzip, identity;q=1', b'identity, *;q=0', b'br', b'gzip;q=', b'identity;q=0.0', b'*;q='])))
         elif k < 0.55:
             hs.append(header_line(rng, b'Server', b'anything at all'))
         elif k < 0.6 and not has_body:
@@ -92,9 +92,17 @@ def gen_request(rng, limit=51200, want_body=None, want_expect=None, long_lines=F
     expect = want_expect if want_expect is not None else (rng.random() < 0.25)
     if expect:
         hs.insert(rng.randint(0, len(hs)), expect_line(rng))
+    cl_at = None
     if has_body:
         cl = rng.choice([b'%d', b'%d', b'%d', b'+%d', b'0%d', b'000%d']) % n
-        hs.insert(rng.randint(0, len(hs)), header_line(rng, b'Content-Length', cl))
+        cl_at = rng.randint(0, len(hs))
+        hs.insert(cl_at, header_line(rng, b'Content-Length', cl))
+    if rng.random() < 0.06 and not long_lines and not any(h.lower().lstrip().startswith(b'content-length') for h in hs[(cl_at + 1 if cl_at is not None else 0):]):
+        # an earlier Content-Length line that the last one overrides (for a request without body: ... then 0)
+        if not has_body:
+            hs.append(b'Content-Length: 0')
+            cl_at = len(hs) - 1
+        hs.insert(rng.randint(0, cl_at), b'Content-Length: %d' % rng.choice([1, 3, 19, n + 2]))
     body = b''
     if has_body:
         alpha = rng.choice([b'ab', b'\r\n', bytes(range(256)), b'GET / HTTP/1.1\r\n\r\n'])
